@@ -29,7 +29,7 @@ Print Assumptions C20_publish_first_refuted.
 (* What the thread model leaves out is whatever else two calls could share. The inventory of gen/Writes.v - regenerated from both
    source files on this run - lists every statement that can change an object the running call did not create itself; all of
    them stand in the builders of a tokenizer (run before it is published: the order above), in the publication itself, or
-   in four places that work on a copy the same call chain has just made; none has a module-level constant as its receiver.
+   in three places that work on a list or set the same call has just made; none has a module-level constant as its receiver.
    Hence two calls share the published tokenizer and nothing else that anyone writes to. (A statement is judged by its text: a
    receiver reached through an alias of a shared object that is itself stored in a fresh local container is not seen.) *)
 Require Import Model.Writes Gen.Writes Tie.Writes.
